@@ -38,3 +38,22 @@ Proof.
     field. repeat split; lra. }
   rewrite <- E. exact H.
 Qed.
+
+(* integrated form: along a curve that follows the field on [a, b] (a > 0), x / sigma_x is constant *)
+Lemma streamline_constant (s t : R) (x : R -> R) (a b : R) :
+  0 < s -> 0 < a ->
+  (forall z, a <= z <= b -> is_derive x z (ex_R s t (x z) z / z)) ->
+  forall z, a <= z <= b -> x z / sigma_R s t z = x a / sigma_R s t a.
+Proof.
+  intros Hs Ha Hx z [Haz Hzb].
+  destruct (Req_dec a z) as [->|Hne]; [reflexivity|].
+  assert (Hlt : a < z) by lra.
+  set (f := fun u => x u / sigma_R s t u).
+  assert (Hd : forall u, a <= u <= z -> is_derive f u 0).
+  { intros u [H1 H2]. apply streamline_derivative_zero; [exact Hs | lra | apply Hx; lra]. }
+  destruct (MVT_gen f a z (fun _ => 0)) as (c & _ & Hc).
+  - intros u Hu. rewrite Rmin_left in Hu by lra. rewrite Rmax_right in Hu by lra. apply Hd; lra.
+  - intros u Hu. rewrite Rmin_left in Hu by lra. rewrite Rmax_right in Hu by lra.
+    apply derivable_continuous_pt. apply ex_derive_Reals_0. exists 0. apply Hd; lra.
+  - unfold f in Hc. lra.
+Qed.
